@@ -160,6 +160,7 @@ def expr_steps():
     add("summarize(filter=)", lambda x, c: x >> pdt.summarize(w1=x.a.sum(filter=x.h > 2), w7=x.a.count(filter=x.f), w8=pdt.count(filter=x.b.is_null()), w3=x.b.max(filter=x.a.is_not_null())), effect="destroy", needs=("a", "b", "f", "h"))
     add("summarize(expr of aggs)", lambda x, c: x >> pdt.summarize(w=x.a.sum() + x.h.max() * 2, v=pdt.when(x.a.max() > 3).then(x.h.min()).otherwise(-1)), effect="destroy", needs=("a", "h"))
     add("case/coalesce", lambda x, c: x >> pdt.mutate(w=pdt.when(x.a > 2).then(x.h).when(x.f).then(x.a).otherwise(None), v=pdt.coalesce(x.a, x.h), u=x.a.fill_null(0) + x.h, m=x.a.map({1: 10, 2: 20}, default=x.h)), needs=("a", "f", "h"))
+    add("case(window|col)", lambda x, c: x >> pdt.mutate(w=pdt.when(x.f).then(x.h.shift(1, arrange=x.h)).otherwise(x.a), v=pdt.when(x.a > 1).then(x.a.sum()).otherwise(x.h)), needs=("a", "f", "h"), uniq=True)
     add("arith", lambda x, c: x >> pdt.mutate(w=x.a * x.h - 3, v=x.h // 4, u=x.h % 4, p=(-x.h) // 4, q=(-x.h) % 4, r=x.b / 2 + x.a, ab=(x.a - 3).abs(), fl=(x.b / 4).floor(), ce=(x.b / 4).ceil()), needs=("a", "b", "h"))
     add("compare/bool", lambda x, c: x >> pdt.mutate(w=(x.a > 2) & x.f, v=(x.a <= 2) | x.f, u=~x.f, e=x.a == x.h, ne=x.a != x.h, i=x.a.is_in(1, 2, 5), i2=x.h.is_in(x.a, 7), i3=x.a.is_in(1, None), n=x.a.is_null(), nn=x.s.is_not_null(), x_=x.f ^ (x.a > 1)), needs=("a", "f", "h", "s"))
     add("string", lambda x, c: x >> pdt.mutate(w=x.s + "z", v=x.s.str.len(), u=x.s.str.upper(), st=x.s.str.starts_with("k"), ct=x.s.str.contains("1"), sl=x.s.str.slice(1, 2), rp=x.s.str.replace_all("k", "qq")), needs=("s",))
@@ -195,6 +196,33 @@ def hides_group_col(pipeline):
         elif grouped and st.label.startswith("mutate(a="):
             return True
     return False
+
+
+FRAGMENT = {"filter(a>1)", "filter(b.is_null()|f)", "mutate(x=a+h)", "mutate(a=a*2,z=a)", "mutate(k=when)", "select(h,a)", "drop(s)", "rename(a<->b)", "arrange(a.nl,h)", "arrange(h.desc)", "slice_head(3,1)",
+            "group_by(a)", "summarize(n,m)", "summarize(sa)", "id", "case/coalesce", "arith", "compare/bool", "string", "cast", "min/max horizontal", "filter(case)", "filter(is_in)", "arrange(s.desc.nf,h)", "arrange(b.nl,a.desc.nf,h.desc)"}
+
+
+def in_fragment(pipeline):
+    """C08/S5: pipelines of element-wise mutate / filter, select, rename, arrange, ONE grouped summarize and a FINAL slice_head never need a subquery"""
+    labs = [st.label for st in pipeline]
+    if any(l not in FRAGMENT for l in labs):
+        return False
+    sums = [i for i, l in enumerate(labs) if l.startswith("summarize")]
+    if len(sums) > 1:
+        return False
+    grouped = False
+    for i, l in enumerate(labs):
+        if l.startswith("group_by"):
+            if grouped or sums and i > sums[0]:
+                return False
+            grouped = True
+        elif l.startswith("summarize"):
+            if not grouped:
+                return False
+            grouped = False
+        elif l.startswith("slice_head") and i != len(labs) - 1:
+            return False
+    return not grouped or not sums or True
 
 
 def plan(pipeline):
@@ -287,6 +315,8 @@ def compare(pipeline, kind="mixed", carve=()):
     if rp[0] != "ok":
         return ("mismatch", f"[{kind}] {lab}: polars export fails: {rp[1]}")
     if rs[0] == "refused":
+        if in_fragment(pipeline):
+            return ("mismatch", f"[{kind}] {lab}: SQL refuses the pipeline ({rs[1]}) although it consists only of element-wise mutate / filter, select, rename, arrange, one grouped summarize and a final slice_head (C08/S5: these never need a subquery)")
         return ("refused", rs[1])
     if rs[0] != "ok":
         return ("mismatch", f"[{kind}] {lab}: polars ok, sqlite: {rs[0]} {rs[1]}")
